@@ -32,7 +32,7 @@ Instance(r, A, x, y) ==
   /\ LET lr == Leaves(r)  la == Leaves(A)  pool == FeatSet(x) \cup FeatSet(y)
      IN \A i \in DOMAIN lr : IF IsVarFeat(la[i].f) THEN lr[i].f \in pool ELSE lr[i].f = la[i].f
 (* a modifier returns the other category unchanged *)
-Res(r, modf, other, A, x, y) == IF modf THEN r = other ELSE Instance(r, A, x, y)
+Res(r, modf, other, A, x, y, m1, m2) == IF modf THEN r = other ELSE Instance(r, A, x, y) /\ InstanceOf(r, A, m1, m2)
 Match(a, b) == Compat(a, b) # "no"
 
 (* "" = justified, otherwise the name of the failing clause; x, y already nb-erased *)
@@ -42,30 +42,30 @@ EnWhy(x, y, e, pb) ==
   ELSE IF e.op = "fa" THEN
         IF e.symcp # Sym("fa") THEN "fa.symbol"
         ELSE IF ~(x.k = "F" /\ SlashOK("/", x.s) /\ Match(x.r, y)) THEN "fa.premise"
-        ELSE IF Res(r, IsModifier(x), y, x.l, x, y) THEN "" ELSE "fa.result"
+        ELSE IF Res(r, IsModifier(x), y, x.l, x, y, x.r, y) THEN "" ELSE "fa.result"
   ELSE IF e.op = "ba" THEN
         IF e.symcp # Sym("ba") THEN "ba.symbol"
         ELSE IF x = Sf("dcl") /\ y = Bk(Sf("em"), Sf("em")) THEN (IF r = x THEN "" ELSE "ba.special")
         ELSE IF ~(y.k = "F" /\ SlashOK("\\", y.s) /\ Match(y.r, x)) THEN "ba.premise"
-        ELSE IF Res(r, IsModifier(y), x, y.l, x, y) THEN "" ELSE "ba.result"
+        ELSE IF Res(r, IsModifier(y), x, y.l, x, y, y.r, x) THEN "" ELSE "ba.result"
   ELSE IF e.op = "fc" THEN
         IF e.symcp # Sym("fc") THEN "fc.symbol"
         ELSE IF ~(x.k = "F" /\ y.k = "F" /\ SlashOK("/", x.s) /\ SlashOK("/", y.s) /\ Match(x.r, y.l)) THEN "fc.premise"
-        ELSE IF Res(r, IsModifier(x), y, Fw(x.l, y.r), x, y) THEN "" ELSE "fc.result"
+        ELSE IF Res(r, IsModifier(x), y, Fw(x.l, y.r), x, y, x.r, y.l) THEN "" ELSE "fc.result"
   ELSE IF e.op = "bx" THEN
         IF e.symcp # Sym("bx") THEN "bx.symbol"
         ELSE IF ~(x.k = "F" /\ y.k = "F" /\ SlashOK("/", x.s) /\ SlashOK("\\", y.s) /\ Match(y.r, x.l)) THEN "bx.premise"
         ELSE IF Bare(x.l) /\ Bare(y.r) THEN "bx.over_bare_N_NP"
-        ELSE IF Res(r, IsModifier(y), x, Fw(y.l, x.r), x, y) THEN "" ELSE "bx.result"
+        ELSE IF Res(r, IsModifier(y), x, Fw(y.l, x.r), x, y, y.r, x.l) THEN "" ELSE "bx.result"
   ELSE IF e.op = "gfc" THEN
         IF e.symcp # Sym("gfc") THEN "gfc.symbol"
         ELSE IF ~(x.k = "F" /\ SlashOK("/", x.s) /\ y.k = "F" /\ y.l.k = "F" /\ SlashOK("/", y.l.s) /\ Match(x.r, y.l.l)) THEN "gfc.premise"
-        ELSE IF Res(r, IsModifier(x), y, Fun(Fw(x.l, y.l.r), y.s, y.r), x, y) THEN "" ELSE "gfc.result"
+        ELSE IF Res(r, IsModifier(x), y, Fun(Fw(x.l, y.l.r), y.s, y.r), x, y, x.r, y.l.l) THEN "" ELSE "gfc.result"
   ELSE IF e.op = "gbx" THEN
         IF e.symcp # Sym("gbx") THEN "gbx.symbol"
         ELSE IF ~(y.k = "F" /\ SlashOK("\\", y.s) /\ x.k = "F" /\ x.l.k = "F" /\ SlashOK("/", x.l.s) /\ Match(y.r, x.l.l)) THEN "gbx.premise"
         ELSE IF Bare(x.l.l) /\ Bare(y.r) THEN "gbx.over_bare_N_NP"
-        ELSE IF Res(r, IsModifier(y), x, Fun(Fw(y.l, x.l.r), x.s, x.r), x, y) THEN "" ELSE "gbx.result"
+        ELSE IF Res(r, IsModifier(y), x, Fun(Fw(y.l, x.l.r), x.s, x.r), x, y, y.r, x.l.l) THEN "" ELSE "gbx.result"
   ELSE IF e.op = "conj" THEN
         IF e.symcp # Sym("conj") THEN "conj.symbol"
         ELSE IF x = A0("conj") /\ y = Bk(A0("NP"), A0("NP")) /\ r = y THEN ""
